@@ -18,9 +18,29 @@ length, index values and name, values in row order (floats rtol 1e-9).  For cate
 
 Second operands: with known divisions a second, DIFFERENTLY partitioned dask frame (same rows, or - unique indexes
 only - an independently drawn frame of the same index kind, so the indexes overlap partially) is used in
-series-series and frame-frame arithmetic, in ``assign``, as a filter mask and as ``other`` of where/mask.  Operands
-with unknown divisions are only combined when they derive from the same collection (co-aligned); dask documents
-nothing for not-aligned operands with unknown divisions, so those are not generated.
+series-series and frame-frame arithmetic, in ``assign``, as a filter mask and as ``other`` of where/mask.  When the
+frame has UNKNOWN divisions (unique indexes only) a second operand that is not co-partitioned (known or unknown
+divisions, same rows or partial overlap) is used in series-series and frame-frame arithmetic: dask aligns such
+operands by an index shuffle (``MaybeAlignPartitions._lower``), which defines the rows of the result but no row order, so
+these pipelines (``desc["unordered"]``) are compared after putting both sides into index order.
+
+Extended operation table (``build(ext=True)``; C42 reuses the generator with ``ext=False``, which is bit-for-bit the old
+stream).  Every extended step kind passes a NON-default keyword argument - or an argument form the base table never
+uses - whose effect is visible in the data, and registers a feature counter ``x:<feature>`` with its own floor:
+``Series.map(f|dict|Series, na_action=None|"ignore")`` on series WITH missing values (float column with NaN, strings
+made missing by where/mask) with mappers that turn NaN into a value (``f_fmt`` -> "<nan>", ``f_slen``), propagate it
+(``f_inc``), dict / pandas-Series / one-partition dask-Series mappers with and without a NaN key, assigned / used as a
+filter / taken as a series and followed by the usual steps; ``DataFrame.map(f, na_action=, meta=dict|frame)``;
+``round(decimals int|dict)``, ``replace`` (scalar, list, lists, dict, nested dict, per-column dict + value, regex),
+``DataFrame.abs``, ``fillna(value, axis=)`` / ``fillna(<series>)`` / ``fillna(<frame>)``, ``clip(axis=)`` with scalar,
+per-column list and series bounds, ``rename(columns=<callable>)``, ``loc[:, cols]`` / ``loc[mask, cols]`` / column
+slices, arithmetic methods with ``fill_value=`` (series-scalar, frame-scalar, frame-frame) and ``axis=`` ("index" with
+a series, 1 / "columns" with a pandas Series or a list), comparison methods with ``fill_value=`` / ``axis=``,
+``isin`` with dict / set / ndarray / Series values, ``between`` with series bounds, ``Series.apply(f, args=, **kw)``,
+``DataFrame.apply(axis=1, **kw)``, ``.str`` methods with ``case= / regex= / na= / n= / side= / fillchar= / step /
+na_rep=``, ``.cat`` methods with ``ordered=``.  In half of the cases the nine columns are renamed to names drawn from
+``NAME_POOL`` ("a", "ab", "abc", "b", "bc", ... - prefixes / substrings of each other), and after a step whose argument
+is a mapping keyed by column names a single column whose name contains such a key is selected with raised probability.
 
 Outcomes: pandas raising on the concatenated frame -> ``ctx.reject``; dask raising NotImplementedError ->
 ``ctx.unsupported``; any other dask exception (at graph construction, optimisation or compute) -> violation.
@@ -61,6 +81,21 @@ Calibration (unchanged tree)
   ``column-order``.
 * ``str.split(expand=True)`` is generated (with ``n=``) only on strings built to contain exactly ``n`` separators in
   every row, because dask documents that the number of output columns is taken from ``n``.
+* extended table: nullable ``Int64`` / ``boolean`` columns are not mapped with value-producing functions: pandas' own
+  result is value-dependent there (an ``Int64`` piece holding an NA hands 4.0 instead of 4 to the function, an all-NA
+  ``boolean`` piece stays a masked array with ``<NA>`` instead of NaN), which is the partition-wise mechanism again.
+* extended table: text produced by ``f_fmt`` has the restricted kind ``mstr`` (isna / notna / fillna / ==): an EMPTY
+  partition keeps its float dtype (the known meta-not-enforced mechanism of ``apply:axis1:empty-partition``), so ``.str``
+  steps on it would only multiply that finding.
+* extended table: a dask-Series mapper is generated only with known divisions (``MapAlign`` gathers it into one
+  partition; with unknown divisions every later combination with the original frame is an index shuffle that loses
+  the row order) and without a NaN key for string keys (``from_pandas`` documents NotImplementedError for a
+  non-numeric index with nulls).  Not generated: a multi-partition CO-ALIGNED dask Series as mapper
+  (``ddf.a.map(ddf.d)`` is evaluated partition by partition - the lookup table is cut into pieces) and comparison
+  METHODS between differently partitioned operands (``d1.a.lt(d2.b)`` never aligns and raises the mismatched-divisions
+  assertion); both were seen by hand and are reported, not monitored.
+* operands that are not co-partitioned by known divisions: compared after sorting both sides by the (unique) index,
+  because the index shuffle dask uses for them promises no row order.
 """
 from __future__ import annotations
 
@@ -70,13 +105,18 @@ import traceback
 import warnings
 
 PROP = "C36"
-RULE = ("cases = case seeds; a seed determines the frame (0-40 rows, 9 typed columns, 7 index kinds), the partitioning "
+RULE = ("cases = case seeds; a seed determines the frame (0-40 rows, 9 typed columns - in half of the cases renamed to names "
+        "that are substrings of each other -, 7 index kinds), the partitioning "
         "(from_pandas npartitions|chunksize, from_map/from_delayed row slices incl. empty partitions, cleared divisions), "
         "optionally a second differently partitioned frame (same rows or partially overlapping unique index) and a typed "
         "pipeline of 2-5 operations over the operation table of the statement (projection, filter incl. compound masks and "
         "masks computed on an earlier aligned state, assign new/shadowing with lambdas/series/scalars, frame and series "
         "arithmetic/comparison in operator/method/reversed forms, astype, fillna, where/mask, isin, clip, between, map/apply "
-        "with meta, rename, str/dt/cat accessors); non-trivial = >= 2 partitions and >= 2 steps; distinct = distinct "
+        "with meta, rename, str/dt/cat accessors; extended table: Series.map / DataFrame.map with na_action on missing values "
+        "and function / dict / Series mappers, round, replace, frame abs, fillna axis / series / frame values, clip axis / "
+        "list / series bounds, rename callable, loc column selections, arithmetic and comparison methods with fill_value / "
+        "axis, isin dict / set / ndarray, between series bounds, apply args / kwargs, str and cat keyword arguments; second "
+        "operands not co-partitioned by known divisions); non-trivial = >= 2 partitions and >= 2 steps; distinct = distinct "
         "(pipeline description, frame seed, index kind, partitioning)")
 ASSUMPTIONS = [
     "pandas 3.0.5 on the concatenated frame is the reference; the same JSON description drives both sides",
@@ -84,18 +124,49 @@ ASSUMPTIONS = [
 ]
 BUDGET = {"quick": 90, "thorough": 540}
 FLOORS = {
-    # measured on the unchanged tree (seeds 0,1,2,7,12345, complete streams): compared >= 1862, distinct non-trivial >= 1434,
-    # unknown_divisions >= 1054, empty_partition_inputs >= 399, second_operand_pipelines >= 151, duplicate_index_inputs >= 697
-    "quick": {"evaluations": 900, "distinct_nontrivial": 650,
-              "counters": {"compared": 840, "nontrivial_compared": 640, "unknown_divisions": 470, "known_divisions": 350,
-                           "empty_partition_inputs": 180, "second_operand_pipelines": 65, "duplicate_index_inputs": 310,
-                           "unsorted_index_inputs": 90, "user_function_with_meta": 70, "mask_from_earlier_aligned_state": 40},
-              "sets": {"pipeline_shapes": 760}, "max_skipped_fraction": 0.3},
-    "thorough": {"evaluations": 16000, "distinct_nontrivial": 11500,
-                 "counters": {"compared": 15000, "nontrivial_compared": 11500, "unknown_divisions": 8500, "known_divisions": 6200,
-                              "empty_partition_inputs": 3200, "second_operand_pipelines": 1200, "duplicate_index_inputs": 5600,
-                              "unsorted_index_inputs": 1600, "user_function_with_meta": 1250,
-                              "mask_from_earlier_aligned_state": 720},
+    # measured with ext=True on the tree with fixes_ready/C36_08..11 applied (seeds 0,1,2,7,12345, complete streams):
+    # compared >= 1776, distinct non-trivial >= 1363, unknown_divisions >= 1004, empty_partition_inputs >= 383,
+    # second_operand_pipelines >= 150, duplicate_index_inputs >= 681; every extended step kind ("x:<feature>") has its
+    # own floor (~45 % of the smallest count of the five seeds); thorough = 17 x quick
+    "quick": {"evaluations": 900, "distinct_nontrivial": 610,
+              "counters": {"compared": 799, "nontrivial_compared": 613, "unknown_divisions": 451, "known_divisions": 337,
+                           "empty_partition_inputs": 172, "second_operand_pipelines": 67, "duplicate_index_inputs": 306,
+                           "unsorted_index_inputs": 88, "user_function_with_meta": 248, "mask_from_earlier_aligned_state": 23,
+                           "x:abs:frame": 18, "x:apply:args-kwargs": 21, "x:apply:axis1-kwargs": 12,
+                           "x:arith:frame-axis-columns": 20, "x:arith:frame-axis-index": 14,
+                           "x:arith:frame-frame-fill_value": 18, "x:arith:frame-scalar-fill_value": 20,
+                           "x:arith:series-scalar-fill_value": 22, "x:between:series-bounds": 15, "x:cat:kwargs": 13,
+                           "x:clip:axis": 19, "x:clip:list-bounds-axis1": 8, "x:clip:series-bounds": 23,
+                           "x:cmp:frame-axis": 27, "x:cmp:series-fill_value": 27, "x:fillna:axis": 39,
+                           "x:fillna:frame-value": 10, "x:fillna:series-value": 21, "x:frame-map:na_action=ignore": 39,
+                           "x:frame-map:na_action=ignore:nan-to-value-function": 27, "x:frame-map:on-missing-values": 22,
+                           "x:isin:dict": 33, "x:isin:non-list-values": 22, "x:loc:columns": 64, "x:map:dict-mapper": 18,
+                           "x:map:na_action=ignore": 88, "x:map:na_action=ignore:nan-to-value-function": 45,
+                           "x:map:on-missing-values": 48, "x:map:series-mapper": 29,
+                           "x:names:column-related-to-mapping-key-selected": 32, "x:names:substring-pool": 397,
+                           "x:names:substring-pool:astype-dict": 44, "x:other:unknown-divisions": 23, "x:rename:callable": 38,
+                           "x:replace:frame": 48, "x:replace:series": 17, "x:round:frame": 30, "x:round:series": 20,
+                           "x:str:cat-na_rep": 6, "x:str:kwargs": 40, "x:str:na=": 17},
+              "sets": {"pipeline_shapes": 830}, "max_skipped_fraction": 0.3},
+    "thorough": {"evaluations": 16000, "distinct_nontrivial": 10500,
+                 "counters": {"compared": 13586, "nontrivial_compared": 10426, "unknown_divisions": 7680,
+                              "known_divisions": 5737, "empty_partition_inputs": 2929, "second_operand_pipelines": 1147,
+                              "duplicate_index_inputs": 5209, "unsorted_index_inputs": 1507, "user_function_with_meta": 4222,
+                              "mask_from_earlier_aligned_state": 397, "x:abs:frame": 321, "x:apply:args-kwargs": 367,
+                              "x:apply:axis1-kwargs": 206, "x:arith:frame-axis-columns": 351, "x:arith:frame-axis-index": 244,
+                              "x:arith:frame-frame-fill_value": 321, "x:arith:frame-scalar-fill_value": 351,
+                              "x:arith:series-scalar-fill_value": 390, "x:between:series-bounds": 260, "x:cat:kwargs": 221,
+                              "x:clip:axis": 328, "x:clip:list-bounds-axis1": 145, "x:clip:series-bounds": 397,
+                              "x:cmp:frame-axis": 466, "x:cmp:series-fill_value": 466, "x:fillna:axis": 673,
+                              "x:fillna:frame-value": 175, "x:fillna:series-value": 359, "x:frame-map:na_action=ignore": 665,
+                              "x:frame-map:na_action=ignore:nan-to-value-function": 474, "x:frame-map:on-missing-values": 374,
+                              "x:isin:dict": 566, "x:isin:non-list-values": 390, "x:loc:columns": 1093, "x:map:dict-mapper": 306,
+                              "x:map:na_action=ignore": 1507, "x:map:na_action=ignore:nan-to-value-function": 772,
+                              "x:map:on-missing-values": 818, "x:map:series-mapper": 504,
+                              "x:names:column-related-to-mapping-key-selected": 550, "x:names:substring-pool": 6762,
+                              "x:names:substring-pool:astype-dict": 749, "x:other:unknown-divisions": 405,
+                              "x:rename:callable": 650, "x:replace:frame": 826, "x:replace:series": 290, "x:round:frame": 520,
+                              "x:round:series": 351, "x:str:cat-na_rep": 114, "x:str:kwargs": 680, "x:str:na=": 298},
                  "sets": {"pipeline_shapes": 8000}, "max_skipped_fraction": 0.3},
 }
 EXHAUSTIVE_SPACE = None
@@ -153,8 +224,15 @@ def shard_setup(tier, seed):
 UNIQUE_KINDS = ("range", "sorted", "unsorted")
 
 
-def build(cs, allow_other=True):
-    """-> dict(pdf, ddf, opdf, oddf, desc, kind, pdesc, odesc, same)  (everything derived from the case seed)"""
+# column names that are prefixes / substrings of each other (a membership test written as `name in <str>` goes wrong)
+NAME_POOL = ("a", "ab", "abc", "b", "bc", "c", "ca", "cab", "ba", "d", "da", "abcd")
+
+
+def build(cs, allow_other=True, ext=False):
+    """-> dict(pdf, ddf, opdf, oddf, desc, kind, pdesc, odesc, same)  (everything derived from the case seed).
+    ext=False is the generator as C42 reuses it; C36 itself runs ext=True: extended operation table
+    (vf.gen.c36_pipelines, "extended operation table"), column names drawn from NAME_POOL in half of the cases, and
+    second operands that are not co-partitioned by known divisions."""
     from vf.gen import c36_pipelines as P
     from vf.gen import frames as F
 
@@ -163,24 +241,48 @@ def build(cs, allow_other=True):
     kind = rng.choice(F.INDEX_KINDS)
     nrows = None if rng.random() < 0.8 else rng.choice((0, 1, 2, 3))
     pdf = F.rand_frame(cs, nrows=nrows, nmax=40, index=kind, cols="wide")
+    orig = {}
+    if ext and rng.random() < 0.5:
+        orig = dict(zip(rng.sample(NAME_POOL, len(pdf.columns)), [str(c) for c in pdf.columns]))
+        pdf = pdf.rename(columns={v: k for k, v in orig.items()})
     pdesc = F.rand_partition_desc(rng, len(pdf), True)
     ddf = F.partition(pdf, pdesc)
     opdf = oddf = odesc = None
     same = True
+    other_unknown = False
     if allow_other and ddf.known_divisions and rng.random() < 0.5:
         if rng.random() < 0.6 or not pdf.index.is_unique:
             cand = pdf
         else:
             cand = F.rand_frame(cs + 10 ** 6, nmax=40, index=kind, cols="wide")
+            if orig:
+                cand = cand.rename(columns={v: k for k, v in orig.items()})
             same = False
         odesc = F.rand_partition_desc(rng, len(cand), False)
         o = F.partition(cand, odesc)
         if o.known_divisions and (same or cand.index.is_unique):
             opdf, oddf = cand, o
-    info = P.info_for(pdf, other=opdf, known=ddf.known_divisions, same_rows=same)
+    elif ext and allow_other and not ddf.known_divisions and pdf.index.is_unique and len(pdf) and rng.random() < 0.3:
+        # operands NOT co-partitioned by known divisions (this side unknown; the other side known or unknown)
+        if rng.random() < 0.6:
+            cand = pdf
+        else:
+            cand = F.rand_frame(cs + 10 ** 6, nmax=40, index=kind, cols="wide")
+            if orig:
+                cand = cand.rename(columns={v: k for k, v in orig.items()})
+            same = False
+        if cand.index.is_unique and len(cand):
+            odesc = F.rand_partition_desc(rng, len(cand), True)
+            opdf, oddf = cand, F.partition(cand, odesc)
+            other_unknown = True
+    if ext:
+        info = P.info_for(pdf, other=opdf, known=ddf.known_divisions, same_rows=same, ext=True, orig=orig,
+                          other_unknown=other_unknown)
+    else:
+        info = P.info_for(pdf, other=opdf, known=ddf.known_divisions, same_rows=same)
     desc = P.gen_pipeline(rng, info)
     return {"pdf": pdf, "ddf": ddf, "opdf": opdf, "oddf": oddf, "desc": desc, "kind": kind, "pdesc": pdesc,
-            "odesc": odesc, "same": same}
+            "odesc": odesc, "same": same, "pool_names": bool(orig), "other_unknown": other_unknown}
 
 
 # --------------------------------------------------------------------------- running one program on both sides
@@ -216,7 +318,7 @@ def site_of(exc):
 
 def uses_user_function(desc):
     s = json.dumps(desc["steps"])
-    return '"apply_rows"' in s or '["map"' in s or '["apply"' in s
+    return '"apply_rows"' in s or '["map"' in s or '["apply"' in s or '"frame_map"' in s
 
 
 def run_pair(desc, pdf, ddf, opdf=None, oddf=None, upto=None, want_value=False):
@@ -247,6 +349,13 @@ def run_pair(desc, pdf, ddf, opdf=None, oddf=None, upto=None, want_value=False):
                 return "env", "%s: %s" % (type(e).__name__, str(e)[:80]), {}
             return "exc", site_of(e), {"exc": e, "message": "%s: %s" % (type(e).__name__, str(e)[:300]),
                                        "traceback": "".join(traceback.format_exception(type(e), e, e.__traceback__))[-2500:]}
+    if desc.get("unordered"):
+        # operands aligned by an index shuffle (unknown divisions; unique indexes only): the rows are defined, their
+        # order is not -> both sides are put into index order first
+        try:
+            val, exp = val.sort_index(kind="stable"), exp.sort_index(kind="stable")
+        except Exception:  # noqa: BLE001
+            pass
     m = F.compare(val, exp, ordered=True)
     if m is not None and m[0] == "index":
         # pandas prints "[index]: ..." in every values message; decide the facet ourselves
@@ -334,10 +443,16 @@ def family(klass):
     if p[0] == "assign":
         return "assign"
     if p[0] in ("frame-arith", "frame-cmp"):
+        if p[2] not in ("method", "rmethod", "operator", "reversed"):
+            return "%s:%s" % (p[0], p[2])            # extended table: fill_value / axis-columns / axis-index
         style = "method" if p[2] in ("method", "rmethod") else "operator"
         return "%s:%s" % (p[0], style)
+    if klass in ("fillna:axis", "fillna:frame-value"):
+        return klass
     if p[0] in ("astype", "fillna"):
         return klass if p[0] == "astype" and "category" in klass else p[0]
+    if p[0] in ("loc", "map-frame", "round", "replace", "abs"):
+        return klass
     if p[0] in ("where", "mask") and len(p) > 1 and p[1] == "frame":
         return "where-frame"
     if p[0] == "other":
@@ -356,8 +471,10 @@ def expr_heads(step):
             return "%s(%s)" % (e[0], e[1])
         if e[0] == "astype":
             return "astype(%s)" % e[2]
+        if e[0] == "map" and len(e) > 4:
+            return "map(na_action=%s)" % e[4]
         return e[0]
-    if step["op"] in ("series",):
+    if step["op"] in ("series", "fseries"):
         return head(step["expr"])
     if step["op"] in ("filter", "sfilter"):
         return head(step["pred"])
@@ -465,8 +582,8 @@ def partitionwise_equal(desc, case, val):
         return False
 
 
-_RANK = ("other", "frame-arith", "frame-cmp", "where-frame", "apply", "str", "astype", "fillna", "clip", "isin",
-         "assign", "filter", "series", "rename", "project")
+_RANK = ("other", "map-frame", "frame-arith", "frame-cmp", "where-frame", "apply", "str", "astype", "fillna", "clip", "isin",
+         "replace", "round", "abs", "assign", "filter", "loc", "series", "rename", "project")
 
 
 # expression classes every program contains: an exception inside them does not name the mechanism by itself
@@ -483,6 +600,33 @@ PARTITIONWISE = "partition-wise-evaluation:value-dependent-dtype"
 def _rank(fam):
     head = fam.split(":")[0]
     return _RANK.index(head) if head in _RANK else len(_RANK)
+
+
+def per_column_argument_then_selection(steps):
+    """kind of the first step whose argument is given per column (mapping keyed by column / one entry per column /
+    a frame / a user meta describing every column) when a LATER step selects columns, else None"""
+    def selects(st):
+        return st["op"] in ("project", "getcol") or (st["op"] == "locsel" and "cols" in st)
+
+    for i, st in enumerate(steps):
+        op, kind = st["op"], None
+        if op == "isin" and "values_dict" in st:
+            kind = "isin-dict"
+        elif op == "round" and isinstance(st["decimals"], dict):
+            kind = "round-dict"
+        elif op == "replace" and isinstance(st["to"], dict):
+            kind = "replace-dict"
+        elif op == "fillna" and "value_from" in st:
+            kind = "fillna-frame"
+        elif op == "clip" and (isinstance(st["lower"], list) or isinstance(st["upper"], list)):
+            kind = "clip-list"
+        elif op in ("frame_arith", "frame_cmp") and st["rhs"]["kind"] == "list":
+            kind = "binop-list"
+        elif op == "frame_map":
+            kind = "map-frame-meta"
+        if kind is not None and any(selects(x) for x in steps[i + 1:]):
+            return kind
+    return None
 
 
 def make_label(mini, layout, key, message=""):
@@ -510,6 +654,11 @@ def make_label(mini, layout, key, message=""):
     site = key.split("@", 1)[1] if "@" in key else ""
     if key == MISMATCHED:
         return "aligned-operands:mismatched-divisions"
+    if "Only the Series name can be used for the key in Series dtype mappings" in message:
+        return "astype-dict:selected-column-name-contains-a-key:KeyError"
+    pc = per_column_argument_then_selection(steps)
+    if pc is not None and layout == "any-layout":
+        return "per-column-argument:%s:then-column-selection:%s" % (pc, "exception" if exc else "wrong-result")
     if key == "IndexingError@compute" and any(
             st["op"] in ("filter", "sfilter") and isinstance(st.get("pred"), list) and st["pred"][:2] == ["bin", "|"]
             and st["pred"][2] == st["pred"][3] for st in steps[:-1]):
@@ -534,7 +683,8 @@ def make_label(mini, layout, key, message=""):
         return "%s:%s" % (fam, "exception" if exc else "wrong-result")
     head = fam.split(":")[0]
     h = None
-    if head == "series" or (head in ("filter", "assign") and len([f for f in fams if f != "project"]) == 1):
+    if head == "series" or (head in ("filter", "assign") and len([f for f in fams if f != "project"]) == 1) or \
+            mini["classes"][best] in ("assign:map-na:lambda", "assign:map-na:series", "filter:map-na"):
         h = expr_heads(steps[best])
     culprit = "%s%s" % (fam, "[%s]" % h if h else "")
     if exc:
@@ -557,7 +707,7 @@ def run_case(case, ctx):
 
     with warnings.catch_warnings():
         warnings.simplefilter("ignore")
-        c = build(case["cs"])
+        c = build(case["cs"], ext=True)
     pdf, ddf, desc = c["pdf"], c["ddf"], c["desc"]
     lens = part_lengths(pdf, c["pdesc"], ddf)
     c["empty_parts"] = bool(lens and 0 in lens) or (len(pdf) == 0 and ddf.npartitions > 0)
@@ -591,6 +741,12 @@ def run_case(case, ctx):
         ctx.count("user_function_with_meta")
     if any(k == "filter:earlier-state-mask" for k in desc["classes"]):
         ctx.count("mask_from_earlier_aligned_state")
+    for f in desc.get("features", ()):
+        ctx.count("x:" + f)                      # extended step kinds / keyword variants (each has a floor)
+    if c["pool_names"]:
+        ctx.count("x:names:substring-pool")
+        if any(st["op"] == "astype" and isinstance(st["spec"], dict) for st in desc["steps"]):
+            ctx.count("x:names:substring-pool:astype-dict")
     if ctx.nontrivial:
         ctx.count("nontrivial_compared")
     if status == "ok":
@@ -622,6 +778,10 @@ def run_case(case, ctx):
                 # aligned operands: rows that got a NaN from the alignment were filtered away again; pandas upcast the
                 # whole column, dask only the partitions that saw a NaN
                 label = PARTITIONWISE
+    if status == "neq" and key != "dtype" and label != PARTITIONWISE and c["other_unknown"] and c["oddf"] is not None \
+            and c["oddf"].npartitions == ddf.npartitions and any(":unknown-divisions" in k for k in mini["classes"]):
+        # operands with unknown divisions and EQUAL partition counts are combined partition by partition
+        label = "other:unknown-divisions:equal-partition-counts:paired-without-alignment"
     detail = {"minimal_pipeline": mini["steps"], "full_pipeline": desc["steps"], "index_kind": c["kind"],
               "partitioning": c["pdesc"], "second_operand_partitioning": c["odesc"], "same_rows": c["same"],
               "divisions": list(ddf.divisions), "rows": len(pdf), "case_seed": case["cs"]}
